@@ -976,6 +976,9 @@ def canon_items(v) -> str:
     return ','.join(out) if out else '()'
 
 
+_PARSER = None
+
+
 class _Timeout(BaseException):
     pass
 
@@ -991,11 +994,25 @@ def run_impl(text: str, limit: float = 0.5) -> str:
     import signal
     import elementpath
     from elementpath.xpath3 import XPath31Parser
+    from elementpath import XPathContext
     from elementpath.exceptions import ElementPathError
     old = signal.signal(signal.SIGALRM, _alarm)
     signal.setitimer(signal.ITIMER_REAL, limit)
     try:
-        return canon_items(elementpath.select(None, text, parser=XPath31Parser, item=1))
+        # one parser instance for the whole run; the SAME token tree is evaluated twice through
+        # get_results (evaluate path) and once through select_results (iterator path) with fresh
+        # contexts: state kept on tokens (placeholder values, argument lists of partial functions,
+        # closure slots) must not leak from one evaluation into the next
+        global _PARSER
+        if _PARSER is None:
+            _PARSER = XPath31Parser()
+        token = _PARSER.parse(text)
+        r1 = canon_items(token.get_results(XPathContext(None, item=1)))
+        r2 = canon_items(list(token.select_results(XPathContext(None, item=1))))
+        r3 = canon_items(token.get_results(XPathContext(None, item=1)))
+        if r1 != r2 or r1 != r3:
+            return f'INCONSISTENT:{r1}|{r2}|{r3}'
+        return r1
     except _Timeout:
         return 'TIMEOUT'
     except ElementPathError as e:
